@@ -47,7 +47,7 @@ def accumulate(sym):
 
 
 def exclusion(tier):
-    PATS = ["*.tmp", "junk.bin", "d/e", "cache/", "/a.log"]
+    PATS = ["*.tmp", "junk.bin", "d/e", "cache/", "/a.log", "d/e/deep.txt"]
 
     def fn(b, sym):
         files = {"R/a.txt": 1, "R/a.log": 2, "R/d/b.txt": 3, "R/d/x.tmp": 4, "R/d/e/deep.txt": 5, "R/d/a.log": 6, "R/junk.bin": 7, "R/d/junk.bin": 8,
@@ -99,7 +99,7 @@ def exclusion(tier):
         elif victims and edit == "delete":
             b.delete(victims[-1])
         elif edit == "add":
-            extra = {"*.tmp": "R/d/e/new.tmp", "junk.bin": "R/cache/junk.bin", "d/e": "R/d/e/more.txt", "cache/": "R/cache/c2.dat", "/a.log": None}[p1]
+            extra = {"*.tmp": "R/d/e/new.tmp", "junk.bin": "R/cache/junk.bin", "d/e": "R/d/e/more.txt", "cache/": "R/cache/c2.dat", "/a.log": None, "d/e/deep.txt": None}[p1]
             if extra and ignored(extra):
                 b.mkfile(extra, 98)
             b.mkfile("R/d/e/.DS_Store", 97) if b.exists("R/d/e") else None
@@ -138,6 +138,11 @@ def exclusion(tier):
                     own = cm.owner_history(f, roots, "R")
                     exp[own][cm.rel_to(f, own)] = "file"
                 check_records(b, "R", ["md5"], roots, news3, exp, tag=tag + "create -sf R/d: ")
+                for hr in roots:
+                    if news3.get(hr):
+                        # also a generation that only references a child generation keeps the accumulated patterns
+                        want = eff if hr == "R" else DEFAULTS + child_pats + [p for p in eff if p not in DEFAULTS + child_pats]
+                        b.require(news3[hr][0].ignore == want, "pattern-list-sf-generation", "%s%s: %r vs %r" % (tag, hr, news3[hr][0].ignore, want))
     return fn
 
 
@@ -150,8 +155,8 @@ def harnesses(tier):
                      "first appearance, no duplicates",
                 bounds={"previous": "0-3 distinct", "new": "0-3 (duplicates allowed)", "identities": "4 values, compared symbolically"}, outside=out),
         Harness("c12-exclusion", exclusion(tier), frontier=6, budget_s=2400,
-                what="tree with entries matching 5 pattern kinds (glob, base name, path, directory, anchored) + .DS_Store, flat or with a nested history; "
+                what="tree with entries matching 6 pattern kinds (glob, base name, path, directory, anchored) + .DS_Store, flat or with a nested history; "
                      "patterns via -i, repeated -i, -ii; then edits of ignored entries and verify / verify -dh / diff / create / create -sf",
-                bounds={"patterns": ["*.tmp", "junk.bin", "d/e", "cache/", "/a.log"], "given via": "-i | -i x3 with duplicate | -ii file with blank line",
+                bounds={"patterns": ["*.tmp", "junk.bin", "d/e", "cache/", "/a.log", "d/e/deep.txt"], "given via": "-i | -i x3 with duplicate | -ii file with blank line",
                         "generations": 3}, outside=out),
     ]
